@@ -6,12 +6,18 @@ package main
 // direct calls of util.RandID.
 
 import (
+	"crypto/rand"
+	"errors"
 	"fmt"
 	"regexp"
 
 	"github.com/fatedier/frp/pkg/util/util"
 	"verifharness/hx"
 )
+
+type noEntropy struct{}
+
+func (noEntropy) Read([]byte) (int, error) { return 0, errors.New("c12: no entropy") }
 
 var hex16 = regexp.MustCompile(`^[0-9a-f]{16}$`)
 
@@ -43,6 +49,23 @@ func runRunIDs(cfg *hx.RunCfg) error {
 		return err
 	}
 	defer s.Close()
+	// no entropy: util.RandID must FAIL (the model's oracle may refuse), and a fresh login must then be
+	// refused rather than acknowledged with a guessable run id
+	func() {
+		old := rand.Reader
+		rand.Reader = noEntropy{}
+		defer func() { rand.Reader = old }()
+		if id, err := util.RandID(); err == nil {
+			bad("runid:no-entropy-still-an-id", fmt.Sprintf("util.RandID returned %q without error although crypto/rand failed", id))
+		}
+		p, resp, err := s.Login(hx.LoginOpts{})
+		if p != nil {
+			bad("runid:login-acknowledged-without-entropy", fmt.Sprintf("a fresh login was acknowledged with run id %q while crypto/rand failed", resp.RunID))
+			p.Close()
+		} else if err == nil && resp != nil && resp.Error == "" {
+			bad("runid:login-acknowledged-without-entropy", "LoginResp without error while crypto/rand failed")
+		}
+	}()
 	logins := 0
 	seenL := map[string]bool{}
 	for i := 0; i < cfg.N; i++ {
